@@ -43,6 +43,9 @@ type propCfg struct {
 }
 
 var props = map[string]propCfg{
+	"C16": {Level: "exploration",
+		Quick:    tierCfg{Checks: 96000, Shards: 16, Guard: 10 * time.Minute},
+		Thorough: tierCfg{Checks: 1600000, Shards: 16, Guard: 90 * time.Minute}},
 	"C18": {Level: "exploration",
 		Quick:    tierCfg{Checks: 48000, Shards: 16, Guard: 10 * time.Minute},
 		Thorough: tierCfg{Checks: 1600000, Shards: 16, Guard: 60 * time.Minute}},
